@@ -12,8 +12,22 @@ BIN = os.path.join(RDIR, 'target', 'debug', 'vreplay')
 
 
 def build():
-    env = dict(os.environ, RUSTFLAGS='--cfg sv_parser_verif', CARGO_TARGET_DIR=os.path.join(RDIR, 'target'), CARGO_NET_OFFLINE='true')
-    p = subprocess.run(['cargo', 'build', '--offline'], cwd=RDIR, env=env, stdout=subprocess.PIPE, stderr=subprocess.STDOUT)
+    """build the replay crate against the tree under check; for a scratch tree (VERIF_REPO) a copy of the crate with
+    re-pointed path dependencies is built under VERIF_OUT"""
+    global BIN
+    repo = os.environ.get('VERIF_REPO', '/repo')
+    rdir = RDIR
+    if repo != '/repo':
+        import shutil
+        out = os.environ.get('VERIF_OUT', VERIF)
+        rdir = os.path.join(out, 'replay')
+        os.makedirs(os.path.join(rdir, 'src'), exist_ok=True)
+        shutil.copy(os.path.join(RDIR, 'src', 'main.rs'), os.path.join(rdir, 'src', 'main.rs'))
+        shutil.copy(os.path.join(RDIR, 'Cargo.lock'), os.path.join(rdir, 'Cargo.lock'))
+        open(os.path.join(rdir, 'Cargo.toml'), 'w').write(open(os.path.join(RDIR, 'Cargo.toml')).read().replace('"/repo/', '"%s/' % repo))
+    BIN = os.path.join(rdir, 'target', 'debug', 'vreplay')
+    env = dict(os.environ, RUSTFLAGS='--cfg sv_parser_verif', CARGO_TARGET_DIR=os.path.join(rdir, 'target'), CARGO_NET_OFFLINE='true')
+    p = subprocess.run(['cargo', 'build', '--offline'], cwd=rdir, env=env, stdout=subprocess.PIPE, stderr=subprocess.STDOUT)
     return p.returncode == 0, p.stdout.decode()[-2000:]
 
 
